@@ -627,10 +627,24 @@ impl<'a> Parser<'a> {
 
         self.expect(TokenKind::RightBrace)?;
 
-        if patterns.len() == 1 {
-            Ok(patterns.into_iter().next().unwrap())
+        Ok(Self::group_of(patterns))
+    }
+
+    /// A group of one required pattern is that pattern. A lone FILTER, OPTIONAL, MINUS
+    /// or BIND stays a group of its own: unwrapped it would become an element of the
+    /// enclosing group and filter, extend or bind that group's solutions instead.
+    fn group_of(patterns: Vec<GraphPattern>) -> GraphPattern {
+        let keeps_its_group = matches!(
+            patterns.as_slice(),
+            [GraphPattern::Filter(_)
+                | GraphPattern::Optional(_)
+                | GraphPattern::Minus(_)
+                | GraphPattern::Bind { .. }]
+        );
+        if patterns.len() == 1 && !keeps_its_group {
+            patterns.into_iter().next().unwrap()
         } else {
-            Ok(GraphPattern::Group(patterns))
+            GraphPattern::Group(patterns)
         }
     }
 
@@ -739,11 +753,7 @@ impl<'a> Parser<'a> {
             }
             self.expect(TokenKind::RightBrace)?;
 
-            if patterns.len() == 1 {
-                Ok(patterns.into_iter().next().unwrap())
-            } else {
-                Ok(GraphPattern::Group(patterns))
-            }
+            Ok(Self::group_of(patterns))
         } else {
             Err(self.error("expected '{'"))
         }
